@@ -11,7 +11,9 @@
 #include <stdlib.h>
 #include <string.h>
 #include <sys/syscall.h>
+#include <sys/time.h>
 #include <sys/types.h>
+#include <time.h>
 
 static uint64_t seed0;
 static int seeded = 0;
@@ -67,4 +69,50 @@ long syscall(long number, ...) {
     real = (long (*)(long, ...))dlsym(RTLD_NEXT, "syscall");
   }
   return real(number, a, b, c, d, e, f);
+}
+
+/* The wall clock seam: CLOCK_REALTIME (and time(), gettimeofday()) as seen by the simulated process is
+ * the real one plus VERIF_CLOCK_OFFSET seconds - a clock that jumps between process starts and that
+ * disagrees with the time stamps the file system puts on files. Monotonic clocks are left alone. */
+static long long clock_offset(void) {
+  static int have = 0;
+  static long long off = 0;
+  if (!have) {
+    const char *e = getenv("VERIF_CLOCK_OFFSET");
+    off = e ? strtoll(e, 0, 10) : 0;
+    have = 1;
+  }
+  return off;
+}
+
+int clock_gettime(clockid_t id, struct timespec *ts) {
+  static int (*real)(clockid_t, struct timespec *) = 0;
+  if (!real) {
+    real = (int (*)(clockid_t, struct timespec *))dlsym(RTLD_NEXT, "clock_gettime");
+  }
+  int rc = real(id, ts);
+  if (rc == 0 && ts && (id == CLOCK_REALTIME || id == CLOCK_REALTIME_COARSE)) {
+    ts->tv_sec += clock_offset();
+  }
+  return rc;
+}
+
+time_t time(time_t *t) {
+  struct timespec ts;
+  clock_gettime(CLOCK_REALTIME, &ts);
+  if (t) {
+    *t = ts.tv_sec;
+  }
+  return ts.tv_sec;
+}
+
+int gettimeofday(struct timeval *tv, void *tz) {
+  (void)tz;
+  struct timespec ts;
+  clock_gettime(CLOCK_REALTIME, &ts);
+  if (tv) {
+    tv->tv_sec = ts.tv_sec;
+    tv->tv_usec = ts.tv_nsec / 1000;
+  }
+  return 0;
 }
